@@ -113,6 +113,8 @@ ob(name='world.dtor.expectation_lifetime_ends', kind='BL', props=['C01', 'C04', 
 ob(name='world.dtor.expectation_lifetime_ends.two_sequences', kind='BL', props=['C04', 'C06', 'C14'], unit='world_ii', harness='h_world.c', entry='w_dtor',
    variants=with_target(world_variants(2, 2, True), 1), unwind=10, timeout=900,
    bound=_BOUND % 'N=2 expectations, target in both sequences', min_reach=0)
+ob(name='world.call_then_dtor.rejected_call_then_lifetime_ends', kind='BL', props=['C04', 'C14', 'C15'], unit='world_ii', harness='h_world.c', entry='w_call_then_dtor',
+   variants=[v for v in with_target(world_variants(2, 1), 2) if 'A' in v[0].split('.')[1]], unwind=10, timeout=900, bound=_BOUND % 'N=2 expectations (at least one active) x target expectation, <=1 of 2 sequences each; history: one rejected call, then the target is released', min_reach=0)
 ob(name='world.mockdtor.mock_dies_first', kind='BL', props=['C04', 'C06', 'C14', 'C15'], unit='world_ii', harness='h_world.c', entry='w_mockdtor',
    variants=world_variants(3, 1), unwind=10, timeout=900, bound=_BOUND % 'N=3 expectations, <=1 of 2 sequences each', min_reach=0)
 ob(name='world.seqdtor.sequence_object_dies', kind='BL', props=['C06', 'C14', 'C15'], unit='world_ii', harness='h_world.c', entry='w_seqdtor',
@@ -219,6 +221,12 @@ UNITS['matchers'] = {
         "PM_MEMBER": "13param_matchesINS_17predicate_matcherINS_4impl17member_is_matcherI.*6vp_absILi1EEE",
         "PM_RE": "13param_matchesINS_17predicate_matcherINS_7lambdas11regex_checkE.*St17reference_wrapperIPKcEE",
         "PM_RE_STR": "13param_matchesINS_17predicate_matcherINS_7lambdas11regex_checkE.*St17reference_wrapperISB_EE",
+        "PM_EQ_D": "13param_matchesINS_17predicate_matcherINS_7lambdas5equalENS2_13equal_printerENS_18duck_typed_matcherIS3_JdEEEJdEEESt17reference_wrapperIdEE",
+        "PM_NE_D": "13param_matchesINS_17predicate_matcherINS_7lambdas9not_equalE.*18duck_typed_matcherIS3_JdEEEJdEEESt17reference_wrapperIdEE",
+        "PM_LT_D": "13param_matchesINS_17predicate_matcherINS_7lambdas4lessENS2_12less_printerENS_18duck_typed_matcherIS3_JdEEEJdEEESt17reference_wrapperIdEE",
+        "PM_LE_D": "13param_matchesINS_17predicate_matcherINS_7lambdas10less_equalE.*18duck_typed_matcherIS3_JdEEEJdEEESt17reference_wrapperIdEE",
+        "PM_GT_D": "13param_matchesINS_17predicate_matcherINS_7lambdas7greaterENS2_15greater_printerENS_18duck_typed_matcherIS3_JdEEEJdEEESt17reference_wrapperIdEE",
+        "PM_GE_D": "13param_matchesINS_17predicate_matcherINS_7lambdas13greater_equalE.*18duck_typed_matcherIS3_JdEEEJdEEESt17reference_wrapperIdEE",
         "PM_EQ_NULL": "13param_matchesINS_17predicate_matcherINS_7lambdas5equalENS2_13equal_printerENS_18duck_typed_matcherIS3_JDnEEEJDnEEESt17reference_wrapperIPiEE",
         "PM_NE_NULL": "13param_matchesINS_17predicate_matcherINS_7lambdas9not_equalE.*18duck_typed_matcherIS3_JDnEEEJDnEEESt17reference_wrapperIPiEE",
         "PM_NULLPTR": "13param_matchesIDnSt17reference_wrapperIPiEE",
@@ -226,9 +234,9 @@ UNITS['matchers'] = {
         "PM_DEREF_NOT_GT": "13param_matchesINS_9ptr_derefINS_11not_matcherINS_17predicate_matcherINS_7lambdas7greaterE.*St17reference_wrapperIPiEE",
 },
 }
-for e in ('m_eq', 'm_ne', 'm_lt', 'm_le', 'm_gt', 'm_ge', 'm_eq_typed', 'm_lt_typed', 'm_value', 'm_wildcard', 'm_not', 'm_deref', 'm_any_of', 'm_all_none_of', 'm_any_of_value', 'm_member_is', 'm_re', 'm_re_string', 'm_null', 'm_nested'):
+for e in ('m_eq', 'm_ne', 'm_lt', 'm_le', 'm_gt', 'm_ge', 'm_eq_typed', 'm_lt_typed', 'm_value', 'm_wildcard', 'm_not', 'm_deref', 'm_any_of', 'm_all_none_of', 'm_any_of_value', 'm_member_is', 'm_re', 'm_re_string', 'm_null', 'm_nested', 'm_double'):
     ob(name='matchers.%s' % e[2:], kind='FC+', props=['C10'], unit='matchers', harness='h_matchers.c', entry=e, unwind=5,
-       bound='none: loop-free, full 32-bit argument and operand domain; combinators over abstract operand matchers (arity <= 3 as instantiated)')
+       bound='none: loop-free, full 32-bit argument and operand domain (m_double: every pair of IEEE-754 doubles incl. NaN, infinities, signed zeros); combinators over abstract operand matchers (arity <= 3 as instantiated)')
 LEVELS['C10'] = 'proof'
 
 # ----------------------------------------------------------------------------------------------
@@ -418,6 +426,18 @@ ob(name='run_actions.decision_logic.contract', kind='FC', props=['C01', 'C03', '
    post_tags={1: ['C01', 'C07', 'C15'], 2: ['C01', 'C05', 'C15'], 3: ['C01', 'C03'], 4: ['C05'], 5: ['C16'], 6: ['C14'], 7: ['C03', 'C05', 'C06'], 8: ['C03'], 9: ['C08']},
    allow_nobody=['vs_', 'vpx_'], bound='none: every state of an active expectation (free bounds and count), rings of any length in 6 alias shapes; the sequence handler\'s virtual calls are contract-only stubs')
 LEVELS['C01'] = 'proof'; LEVELS['C07'] = 'proof'
+
+# unit build: creating an expectation through the code the macros expand to (lowered from driver functions), then releasing it
+UNITS['build'] = {
+    'opaque': [' get_lock$'],
+    'dyn_types': [r'^sequence_handler<[012]>$', r'^call_matcher<int\(int\),std::tuple<wildcard>>$', r'^return_handler_t<int\(int\),\(lambdaat.*\)>$'],
+    'roots': {'BUILD': '^_ZN14vp_trompeloeil8vp_buildE', 'BUILD_PLAIN': '^_ZN14vp_trompeloeil14vp_build_plainE', 'BUILD_FORBID': '^_ZN14vp_trompeloeil15vp_build_forbidE',
+              'MK_M': '^_ZN14vp_trompeloeil4vp_MC1Ev$', 'MK_SEQ': '^_ZN11trompeloeil8sequenceC1Ev$', 'M_DTOR': 'dtor:^vp_vp_M$', 'SEQ_DTOR': 'dtor:^sequence$',
+              'CM': r'rec:^call_matcher<int\(int\),std::tuple<wildcard>>$', 'SM': 'rec:^sequence_matcher$', 'SH1': 'rec:^sequence_handler<1>$', 'SH0': 'rec:^sequence_handler<0>$'},
+}
+for e, props in (('b_rt_times', ['C03', 'C05', 'C06', 'C04', 'C14']), ('b_two_in_sequence', ['C05', 'C06', 'C14']), ('b_plain_and_forbid', ['C03', 'C07', 'C04', 'C14'])):
+    ob(name='build.%s' % e[2:], kind='FC+', props=props, unit='build', harness='h_build.c', entry=e, unwind=6, timeout=240,
+       bound='none for the scalars (free RT_TIMES bounds); one mock object, one sequence, one or two expectations built by the real constructor chain')
 
 # thorough-only: mock_func with expectations in two sequences (concrete K), larger text shapes
 ob(name='world.call.mock_func.two_sequences', kind='BL', props=['C01', 'C02', 'C03', 'C05', 'C07', 'C08', 'C14', 'C15', 'C16', 'C17'], unit='world_ii', harness='h_world.c', entry='w_call', tier='thorough',
